@@ -71,7 +71,15 @@ type Server struct {
 
 // Serves the connection once we accepted it
 func (server *Server) serveConn(conn net.Conn) {
-	defer recover()
+	// a panic while serving this connection (e.g. in a TLS config callback
+	// or a connection state hook) must not take the whole process down;
+	// note that `defer recover()` recovers nothing, recover has to be called
+	// by the deferred function itself
+	defer func() {
+		if err := recover(); err != nil {
+			server.logf("panic serving %s: %v", conn.RemoteAddr(), err)
+		}
+	}()
 	defer conn.Close()
 
 	hijackedConn := hack.NewHijackClientHelloConn(conn)
